@@ -70,4 +70,5 @@ uniffi::setup_scaffolding!();
 #[doc(hidden)]
 pub mod verif {
     pub use crate::validator_set::ValidatorSetExt;
+    pub use crate::blob::verif as blob;
 }
